@@ -191,7 +191,7 @@ Proof.
   { split.
     - split; [exact G|]. split; [cbn; rewrite EF; reflexivity|]. split.
       + destruct M as [F N]. split; [|exact N]. cbn. constructor; [|exact F].
-        split; [apply vars_match_mvars|split; [|reflexivity]]. cbn. unfold cur_ns. rewrite EF. inversion F as [|sc f0 scs fs (V & NS & BB) F' E1 E2]; subst.
+        split; [apply vars_match_mvars|split; [|split; reflexivity]]. cbn. unfold cur_ns. rewrite EF. inversion F as [|sc f0 scs fs (V & NS & BB) F' E1 E2]; subst.
         unfold cur_ns_of. rewrite <- E1. exact NS.
       + split; [cbn; lia|exact D].
     - split; [reflexivity|]. exists [VNil]. split; [reflexivity|]. split; [reflexivity|]. split; [discriminate|nil_case]. }
